@@ -137,6 +137,7 @@ type respBody struct {
 	end       string
 	closed    int
 	sawEnd    bool // a terminal condition (EOF or an error) was returned
+	endByCtx  bool // ... and it was the end of the request context, met before the data ran out
 	endAtClos bool
 	posAtClos int
 	afterClos int
@@ -151,6 +152,9 @@ func (b *respBody) Read(p []byte) (int, error) {
 		return 0, errors.New("read after close")
 	}
 	if err := b.ctx.Err(); err != nil {
+		if !b.sawEnd {
+			b.endByCtx = true
+		}
 		b.sawEnd = true
 		b.mu.Unlock()
 		return 0, err // a real transport tears the connection down when the request context ends
@@ -588,6 +592,7 @@ func Check(p Plan) *kit.Violation {
 	if body != nil {
 		body.mu.Lock()
 		closed, endAtClose, posAtClose, after := body.closed, body.endAtClos, body.posAtClos, body.afterClos
+		endByCtx := body.endByCtx
 		body.mu.Unlock()
 		if closed == 0 {
 			return kit.Failf("BODY-NOT-CLOSED: the response body was delivered and never closed (Submit err=%v)", out.err)
@@ -595,6 +600,12 @@ func Check(p Plan) *kit.Violation {
 		_ = after
 		if p.Reuse && !endAtClose {
 			return kit.Failf("NOT-DRAINED: connection reuse is enabled and the response body was closed at offset %d of %d before its end was seen", posAtClose, len(body.data))
+		}
+		// the only end the body has seen is the end of the request context, although the caller never cancelled and no
+		// deadline was near: the client ended the context itself before it drained the body (a real transport then
+		// gives up the connection)
+		if p.Reuse && endByCtx && posAtClose < len(body.data) && p.CancelAt == "" && (dl == 0 || elapsed < time.Duration(dl)*time.Millisecond/2) {
+			return kit.Failf("NOT-DRAINED: connection reuse is enabled; the request context was ended by the client before the response body was drained (closed at offset %d of %d; caller never cancelled, deadline %d ms, elapsed %v)", posAtClose, len(body.data), dl, elapsed)
 		}
 	}
 	// (2) an error unless the complete response was obtained; a failing upload is never a success
